@@ -87,6 +87,81 @@ def ctrl_held_script(kind, arm, k, call):
     return sc
 
 
+def idle_terminate_script(kind, arm, k):
+    """terminate() of an idle persistent worker with the control thread which handles the request preempted at each of its lines."""
+    sc = [{'op': 'land_spec', 'arm': arm, 'events': ([{'k': k, 'action': 'sleep', 'seconds': 0.5}] if k else [])}]
+    if kind == 'PR':
+        sc.append({'op': 'respawn_server'})
+    sc += [{'op': 'create', 'var': 'w', 'kind': kind, 'target': 'slow_echo', 'kwargs': {'delay': 0.0}},
+           {'op': 'call', 'var': 'w', 'method': 'enqueue', 'args': ['a']},
+           {'op': 'call', 'var': 'w', 'method': 'next_result', 'kwargs': {'timeout': 8}, 'timeout': 10, 'tag': 'warm'},
+           {'op': 'call', 'var': 'w', 'method': 'terminate', 'kwargs': {'timeout': 5, 'force': False}, 'timeout': 30, 'tag': 'call'},
+           {'op': 'poll_dead', 'var': 'w', 'timeout': 10, 'tag': 'dead'},
+           {'op': 'get', 'var': 'w', 'attr': 'has_error', 'tag': 'has_error'},
+           {'op': 'get', 'var': 'w', 'attr': 'result', 'tag': 'result'},
+           {'op': 'get', 'var': 'w', 'attr': 'error', 'tag': 'error'},
+           {'op': 'land_report', 'tag': 'report'}, {'op': 'land_off'}]
+    return sc
+
+
+def judge_idle_terminate(sc, obs):
+    if obs.get('driver_hang') or obs.get('driver_error'):
+        return ('harness', obs.get('driver_hang') or obs.get('driver_error'))
+    t = {}
+    for op, st in zip(sc, obs['steps']):
+        if op.get('tag'):
+            t[op['tag']] = st
+        if st.get('harness_error'):
+            return ('harness', st)
+    if t.get('warm', {}).get('ret') != ['a']:
+        return ('harness', t.get('warm'))
+    c = t.get('call', {})
+    if c.get('hang'):
+        return ('terminate-hangs', None)
+    if 'exc' in c:
+        return ('terminate-raises-%s' % c['exc'], c)
+    if c.get('ret') is not True:
+        return ('terminate-returned-%s' % c.get('ret'), c)
+    if t.get('dead', {}).get('ret') is not True:
+        return ('worker-not-dead', t.get('dead'))
+    out = (t['has_error'].get('ret'), t['result'].get('ret'), t['error'].get('ret'))
+    if out == (True, None, WTE):
+        return None
+    return ('third-outcome:' + describe(out), {'outcome': str(out)[:200]})
+
+
+def idle_terminate_part(ctx):
+    arms = [('PP', CTRL_ARMS['PP'][0][1]), ('PR', CTRL_ARMS['PR'][0][1])]
+    bases = land.run_cases([{'script': idle_terminate_script(kind, arm, 0)} for kind, arm in arms], case_timeout=120)
+    jobs, plan = [], []
+    for (kind, arm), b in zip(arms, bases):
+        sc0 = idle_terminate_script(kind, arm, 0)
+        rep = [st for op, st in zip(sc0, b.get('steps', [])) if op.get('tag') == 'report']
+        sites = (rep[0].get('ret') or {}).get('sites', []) if rep else []
+        if not sites:
+            ctx.selftest_fail('no point recorded in the control thread of an idle %s worker being terminated' % kind)
+            continue
+        for k in range(1, len(sites) + 1):
+            sc = idle_terminate_script(kind, arm, k)
+            jobs.append({'script': sc})
+            plan.append((kind, k, sc, sites[k - 1]))
+    res = land.run_cases(jobs, case_timeout=120)
+    ctx.extra['idle_terminate_control_thread_preempted_runs'] = len(jobs)
+    for (kind, k, sc, site), o in zip(plan, res):
+        ctx.count()
+        ctx.distinct(('idle-terminate-ctrl-preempted', kind, k))
+        v = judge_idle_terminate(sc, o)
+        ctx.outcome('%s:idle-terminate-ctrl-preempted:%s' % (kind, v[0] if v else 'ok'))
+        if v is None:
+            continue
+        if v[0] == 'harness':
+            ctx.extra.setdefault('harness_anomalies', []).append({'idle-terminate': [kind, k], 'why': str(v[1])[:160]})
+            continue
+        ctx.violation('LAND/%s/idle-waiting-for-input/control-thread-preempted@%s/%s' % (kind, land.site_sig(site, REPO), v[0]),
+                      {'kind': kind, 'k': k, 'site': site, 'script': sc, 'call': 'idle-terminate'}, v[1],
+                      'terminate True, the idle worker ends with WorkerTerminatedError', engine='LAND')
+
+
 def judge_ctrl_held(kind, sc, obs, call):
     if obs.get('driver_hang') or obs.get('driver_error'):
         return ('harness', obs.get('driver_hang') or obs.get('driver_error'))
@@ -237,6 +312,7 @@ def run(ctx):
             ctx.selftest_fail('no preemption point recorded in the parent terminate() call')
     runs += pr
     ctrl_held_part(ctx)
+    idle_terminate_part(ctx)
     nbad_harness = 0
     uncovered = {}
     for b, s in zip(bases, scs):
@@ -278,7 +354,7 @@ def replay(ctx, rec):
     if 'script' in c:
         obs = land.run_cases([{'script': c['script']}], case_timeout=120)[0]
         ctx.count()
-        v = judge_ctrl_held(c['kind'], c['script'], obs, c['call'])
+        v = judge_idle_terminate(c['script'], obs) if c.get('call') == 'idle-terminate' else judge_ctrl_held(c['kind'], c['script'], obs, c['call'])
         for op, st in zip(c['script'], obs.get('steps', [])):
             print(op.get('tag', op['op']), str(st)[:160])
         print('verdict:', v)
